@@ -252,11 +252,12 @@ fn in_process_sequence(rep: &Report) {
             let sk = kestrel_crypto::PrivateKey::generate();
             let skb: [u8; 32] = sk.as_bytes().try_into().map_err(|_| "private key is not 32 bytes".to_string())?;
             let salt: [u8; 32] = kestrel_crypto::secure_random(32).try_into().map_err(|_| "secure_random(32) did not return 32 bytes".to_string())?;
-            // real locks for the first 10 keys, under passwords whose lengths go down and up again (state kept between
+            // real locks for the first 14 keys, under passwords whose lengths go down and up again (state kept between
             // derivations on one thread must not leak from a longer password into a shorter one); later keys use a
             // cheap stand-in for the locked string
-            let pws: [&[u8]; 10] = [b"pw1", b"a considerably longer passphrase than the first one", b"tiny", b"", b"mid-length pw", b"x", b"another rather long passphrase, longer than sixty-four bytes in total.", b"pw1", b"zz", b"a considerably longer passphrase than the first one"];
-            let locked = if i < 10 {
+            // (the last four sit at the block sizes of HMAC-SHA-256: 63, 64, 65 and 128 bytes)
+            let pws: [&[u8]; 14] = [b"pw1", b"a considerably longer passphrase than the first one", b"tiny", b"", b"mid-length pw", b"x", b"another rather long passphrase, longer than sixty-four bytes in total.", b"pw1", b"zz", b"a considerably longer passphrase than the first one", &[b'k'; 63], &[b'k'; 64], &[b'k'; 65], &[b'k'; 128]];
+            let locked = if i < 14 {
                 let l = kra::lock(&skb, pws[i], &salt);
                 if r::b64_decode(&l).and_then(|b| r::unlock_key(&b, pws[i])) != Some(skb) {
                     return Err(format!("key {} generated in one thread: its locked string does not unlock (REF) to the key under its own password ({} bytes)", i + 1, pws[i].len()));
@@ -358,6 +359,7 @@ fn limit_names(rep: &Report) {
 
 pub fn run(rep: &'static Report) {
     rep.set_rule("E-GRAPH over histories: breadth-first search (stateright) over initial keyring states x all sequences of <=2 (quick) / <=3 (thorough) `kestrel key generate -o F --env-pass` commands with distinct names from a 7-name alphabet (non-ASCII, with a space, a suffix of another, typed with surrounding whitespace, two names containing '=' with a common prefix) and 2 passwords; each state's last command is executed by the real CLI on the memoised file of its parent history, and the state invariant (prefix preserved, parses for the real parser and for REF, every generated key present, unlocks under its own password to the private key of its PublicKey, pre-existing entries kept) is checked. distinct non-trivial = histories with at least one generation");
+    rep.rule_add("Password channels: two generations into one file, 8 passwords with blanks at their ends x every ordered pair of {environment, controlling terminal, stdin terminal}; REF unlocks each key with exactly the password given.");
     rep.rule_add("in-process sequence of 24/72 generations in one thread; keyring behind a symbolic link as an initial state.");
     rep.assume("CLI runs use the real CSPRNG, so bytes differ between runs; a violating history is executed twice and the verdict must not flip");
     let ctx = Arc::new(Ctx { rep, seed: rep.seed, max_gens: rep.tier.pick(2, 3), inits: initial_states(rep.seed), memo: Mutex::new(HashMap::new()), executed: AtomicU64::new(0) });
@@ -378,10 +380,16 @@ pub fn run(rep: &'static Report) {
     rep.sample(json!({"init":"keyring-without-trailing-newline","history":["generate name='k1' password=''","generate name='Zo\u{eb}' password='p\u{e4}'"],"expect":"old bytes are a prefix; 4 entries; both new keys unlock under their own passwords"}));
     in_process_sequence(rep);
     limit_names(rep);
+    crate::chan::generate(rep, "C14");
     rep.set_exhaustive(true);
 }
 
 pub fn replay(rep: &'static Report, case: &Value) {
+    if case["kind"] == "chan" {
+        println!("  re-running the password-channel part");
+        crate::chan::generate(rep, "C14");
+        return;
+    }
     if case["kind"] == "in-process" {
         in_process_sequence(rep);
         limit_names(rep);
